@@ -7,6 +7,9 @@ import GBProofs.AngMomMotion
 import GBProofs.SphRotation
 import GBProofs.ArrayMotion
 import GBProofs.ArrayMotion2
+import GBProofs.ArrayAsym
+import GBProofs.DensityMotion
+import GBProofs.FormsBridge
 /-!
 # C12 — covariance under every rigid motion (translations, proper and improper rotations)
 
@@ -50,6 +53,12 @@ is (hence `overlap_/kinetic_/pointCharge_/eri_/momentum_/moment_array_translate`
 tensor-index generic lemma `entry2_moved_of_blocks_tensor` with `momentum_array_moved` (vector), `moment_array_moved` (tensor, origin
 moved along) and `angmom_array_moved` (pseudo-vector plus the origin term), and `basisRep_metric` (the representation preserves the
 block-diagonal metric: identity on pure shells, `Sov` on Cartesian ones; plain orthogonality for all-spherical bases).
+
+`DensityMotion.lean`: the **density-type evaluations** with the density matrix transformed by the representation (`CongrBy`: γ = Uᵀ γ′ U,
+what the check does with `Dᵀ g D`): `rho_moved` (scalar), `gradient_moved` (vector), `hessian_moved` (rank 2), `laplacian_moved`,
+`tplus_moved` (scalars), `stress_moved` (rank 2) with genuine `fderiv`, and for the model's own forms `densityForm_`, `gradientForm_`,
+`hessianForm_`, `laplacianForm_`, `posdefForm_`, `generalKEForm_`, `stressForm_`, `forceForm_`, `ehrenfestHessianForm_moved`; every form
+(any derivative order) is invariant under translations (`formVal_translate`).
 -/
 namespace GB.C12
 alias block_covariant_overlap := overlapBlock_moved
@@ -70,4 +79,12 @@ alias momentum_array_covariant := momentum_array_moved
 alias moment_array_covariant := moment_array_moved
 alias angular_momentum_array_covariant := angmom_array_moved
 alias overlap_array_translation_invariant := overlap_array_translate
+alias density_invariant := rho_moved
+alias density_gradient_covariant := gradient_moved
+alias density_hessian_covariant := hessian_moved
+alias stress_tensor_covariant := stressForm_moved
+alias ehrenfest_force_covariant := forceForm_moved
+alias derivative_tensor_of_density_covariant := rho_iteratedFDeriv_moved
+alias derivative_tensor_of_basis_covariant := basisFnE_iteratedFDeriv_moved
+alias model_density_value_invariant := modelDensity_moved
 end GB.C12
